@@ -18,7 +18,7 @@ TRUSTED = [
     'the harness averages gradients with all_gather so that its own traffic is distinguishable from K-FAC all_reduce calls',
 ]
 THEOREMS = ['sod_iff_grad_worker', 'memory_reported_is_held', 'inverse_bcast_only_in_columns', 'grad_bcast_only_in_rows',
-            'factor_allreduce_once_world', 'no_comm_world_one', 'symmetric_numel', 'only_inverse_worker_computes', 'generator_silent_in_world_one', 'generator_columns_and_rows']
+            'factor_allreduce_once_world', 'no_comm_world_one', 'symmetric_numel', 'only_inverse_worker_computes', 'generator_silent_in_world_one', 'generator_columns_and_rows', 'generator_factor_elements_once']
 NOTES = 'Model mirrors the code incl. the eigenvalue buffer receivers allocate under pre-divided eigenvalues (counted by memory_usage and held).'
 
 
